@@ -430,6 +430,15 @@ def k_c16(ctx):
             cmds = {"plain": ["report", "in.cgt"], "json": ["report", "in.cgt", "--format", "json"], "parse": ["parse", "in.cgt"],
                     "convert": ["convert", "schwab", "tx.json"]}
             if li % 3 == 0: cmds["pdf"] = ["report", "in.cgt", "--format", "pdf", "--output", "out.pdf"]
+            # the same ledger as several input files (accounts, export chunks): the command line's order of files is part of the input
+            nf = rng.choice([2, 3, 5, 8]); chunks = [[] for _ in range(nf)]
+            for l in ls: chunks[rng.randrange(nf)].append(l)
+            names = []
+            for ci, ch in enumerate(chunks):
+                open(os.path.join(wd, "part%d.cgt" % ci), "w").write(ledger.render(ch) if ch else ""); names.append("part%d.cgt" % ci)
+            cmds["parse_files"] = ["parse"] + names; cmds["json_files"] = ["report"] + names + ["--format", "json"]
+            if li % 2 == 0: cmds["plain_files"] = ["report"] + names
+            ctx.count("input_files", nf)
             first = {}
             for k, args in cmds.items():
                 outs = set()
